@@ -581,18 +581,13 @@ func rulesC01(c *Ctx) {
 		eCli := c.Obj(pJ, "ErrClientClosing")
 		eSrv := c.Obj(pJ, "ErrServerClosing")
 		isFn := c.Std("errors", "", "Is")
-		var sw *ast.SwitchStmt
-		inspectNoLit(call.Body, func(n ast.Node) {
-			if s, ok := n.(*ast.SwitchStmt); ok && s.Tag == nil && sw == nil {
-				sw = s
-			}
-		})
-		c.Need(sw != nil, "mcp.call: tagless switch over the await error")
-		closingIdx, ctxIdx := -1, -1
-		for i, st := range sw.Body.List {
-			cc := st.(*ast.CaseClause)
-			seen := map[types.Object]bool{}
-			// `case a, b:` and `case a || b:` are the same arm
+		// the arms are the condition vertices of call's flow graph — a tagless switch and an if / else-if chain are the same
+		// thing there; `case a, b:` arrives as two vertices, `case a || b:` as one
+		g := call.Graph()
+		closingV, ctxV := -1, -1
+		seenAt := map[types.Object]int{}
+		for _, cv := range g.condVertices() {
+			cond := g.Node(cv - 1).(ast.Expr)
 			var alts []ast.Expr
 			var flatOr func(e ast.Expr)
 			flatOr = func(e ast.Expr) {
@@ -603,34 +598,55 @@ func rulesC01(c *Ctx) {
 				}
 				alts = append(alts, ast.Unparen(e))
 			}
-			for _, e := range cc.List {
-				flatOr(e)
-			}
+			flatOr(cond)
 			for _, e := range alts {
 				if ce, ok := ast.Unparen(e).(*ast.CallExpr); ok && call.IsCallTo(ce, isFn) && len(ce.Args) == 2 {
-					seen[call.ObjOf(ce.Args[1])] = true
+					if o := call.ObjOf(ce.Args[1]); o == eCli || o == eSrv {
+						seenAt[o] = cv - 1
+					}
 				}
-				if x, twn, ok := NilTest(e); ok && !twn {
+				if x, twn, ok := NilTest(e); ok && !twn && ctxV < 0 {
 					if ce, ok := ast.Unparen(x).(*ast.CallExpr); ok {
 						if fn := call.Callee(ce); fn != nil && fn.Name() == "Err" && fn.Pkg() != nil && fn.Pkg().Path() == "context" {
-							ctxIdx = i
+							ctxV = cv - 1
 						}
 					}
 				}
 			}
-			if seen[eCli] && seen[eSrv] {
-				closingIdx = i
-				wraps := false
-				for _, s := range cc.Body {
-					if r, ok := s.(*ast.ReturnStmt); ok && len(r.Results) == 1 && call.WrapsObj(r.Results[0], errClosed) {
-						wraps = true
+		}
+		cliV, okCli := seenAt[eCli]
+		srvV, okSrv := seenAt[eSrv]
+		if okCli && okSrv {
+			closingV = cliV
+			if srvV > closingV {
+				closingV = srvV
+			}
+			// what the closing test leads to wraps ErrConnectionClosed
+			wraps := true
+			nRet := 0
+			for _, v := range []int{cliV, srvV} {
+				t, _ := g.BranchTargets(v)
+				seen, _ := g.reach([]int{t}, nil, nil)
+				seen[t] = true
+				for _, r := range call.Returns() {
+					rv := g.VertexOf(r)
+					if !seen[rv] {
+						continue
+					}
+					// the first return behind the true edge
+					if ok, _ := g.MustPassIncl(t, g.Exits, func(u int) bool { return u == rv }); ok {
+						nRet++
+						if len(r.Results) != 1 || !call.WrapsObj(r.Results[0], errClosed) {
+							wraps = false
+						}
 					}
 				}
-				c.Check(wraps, "call:closing-arm-wraps-ErrConnectionClosed", call, cc, "the closing arm returns an error wrapping ErrConnectionClosed with %%w")
 			}
+			c.Check(wraps && nRet >= 1, "call:closing-arm-wraps-ErrConnectionClosed", call, g.Node(closingV), "the closing arm returns an error wrapping ErrConnectionClosed with %%w")
 		}
-		c.Check(closingIdx >= 0, "call:closing-arm", call, sw, "an arm tests errors.Is(err, ErrClientClosing) and errors.Is(err, ErrServerClosing)")
-		c.Check(closingIdx >= 0 && ctxIdx >= 0 && closingIdx < ctxIdx, "call:closing-before-ctx", call, sw, "the closing arm precedes the ctx.Err() arm (a call on a closed session reports the connection as closed even if ctx also ended)")
+		c.Check(closingV >= 0, "call:closing-arm", call, nil, "an arm tests errors.Is(err, ErrClientClosing) and errors.Is(err, ErrServerClosing)")
+		okOrder := closingV >= 0 && ctxV >= 0 && g.Dominates(cliV, ctxV) && g.Dominates(srvV, ctxV) && cliV != ctxV && srvV != ctxV
+		c.Check(okOrder, "call:closing-before-ctx", call, nil, "the closing arm precedes the ctx.Err() arm (a call on a closed session reports the connection as closed even if ctx also ended)")
 
 		sd := c.Fn(pJ, "inFlightState", "shuttingDown")
 		param := sd.Params()[1]
